@@ -437,9 +437,15 @@ pub struct Vm {
   pub nested: Ghost<Seq<Option<int>>>,
   /// the exit code recorded by set_exit
   pub exit_code: u16,
+  /// ghost: class-table updates made by this handler, in order (their effect on the tables is the klass unit's contracts)
+  pub class_log: Ghost<Seq<ClassOp>>,
+  /// ghost: the symbol slots of the module of the function being executed, and its name -> slot table (Module: module unit)
+  pub modsyms: Ghost<Seq<Value>>,
+  pub modnames: Ghost<Map<LyStr, int>>,
 }
+pub enum ClassOp { NewClass(ClassRef, LyStr), AddMethod(ClassRef, LyStr, Value), AddField(ClassRef, LyStr), AddStatic(ClassRef, LyStr, Value) }
 /// the ghost components only some units look at are untouched
-pub open spec fn aux_same(o: &Vm, n: &Vm) -> bool { n.ran == o.ran && n.module_cache == o.module_cache && n.spawned == o.spawned && n.boxes == o.boxes && n.nested == o.nested && n.exit_code == o.exit_code }
+pub open spec fn aux_same(o: &Vm, n: &Vm) -> bool { n.ran == o.ran && n.module_cache == o.module_cache && n.spawned == o.spawned && n.boxes == o.boxes && n.nested == o.nested && n.exit_code == o.exit_code && n.class_log == o.class_log && n.modsyms == o.modsyms && n.modnames == o.modnames }
 
 pub uninterp spec fn code_u8(ip: int) -> u8;
 pub uninterp spec fn code_u16(ip: int) -> u16;
@@ -713,6 +719,61 @@ impl Vm {
     ensures closure_fun(r) == fun, closure_captures(r) == captures,
             final(self).fiber == old(self).fiber, final(self).ip == old(self).ip, final(self).raised == old(self).raised, final(self).builtin == old(self).builtin, aux_same(old(self), final(self))
   { ClosureRef { p: 0 } }
+}
+
+// ---- class body handlers (C03): Class / Method / Field / StaticMethod --------------------------------------------------------
+pub uninterp spec fn from_class(c: ClassRef) -> Value;
+pub uninterp spec fn class_meta(c: ClassRef) -> Option<ClassRef>;
+impl IntoValue for ClassRef {
+  open spec fn into_value_spec(self) -> Value { from_class(self) }
+  #[verifier::external_body] fn into_value(self) -> (r: Value) { Value { bits: 0 } }
+}
+impl Vm {
+  /// manage_obj(Class::bare(name)) (Class::bare is verified in the klass unit)
+  #[verifier::external_body]
+  pub fn manage_bare_class(&mut self, name: LyStr) -> (r: ClassRef)
+    ensures final(self).class_log@ == old(self).class_log@.push(ClassOp::NewClass(r, name)), final(self).fiber == old(self).fiber, final(self).ip == old(self).ip, final(self).raised == old(self).raised, final(self).builtin == old(self).builtin
+  { ClassRef { p: 0 } }
+  /// R9: `class.add_method(name, method)` through the GC pointer (Class::add_method: klass unit)
+  #[verifier::external_body]
+  pub fn class_add_method(&mut self, class: ClassRef, name: LyStr, method: Value)
+    ensures final(self).class_log@ == old(self).class_log@.push(ClassOp::AddMethod(class, name, method)), final(self).fiber == old(self).fiber, final(self).ip == old(self).ip, final(self).raised == old(self).raised, final(self).builtin == old(self).builtin
+  { }
+  #[verifier::external_body]
+  pub fn class_add_field(&mut self, class: ClassRef, name: LyStr)
+    ensures final(self).class_log@ == old(self).class_log@.push(ClassOp::AddField(class, name)), final(self).fiber == old(self).fiber, final(self).ip == old(self).ip, final(self).raised == old(self).raised, final(self).builtin == old(self).builtin
+  { }
+  /// `class.meta_class_mut()` : the meta class, if set
+  #[verifier::external_body]
+  pub fn class_meta_get(&self, class: ClassRef) -> (r: Option<ClassRef>) ensures r == class_meta(class) { None }
+}
+
+// ---- module-level variables (C17, C01): the current module's symbol slots (Module::{get,set}_symbol_by_slot, insert_symbol: module unit) ----
+pub uninterp spec fn global_symbol(name: LyStr) -> Option<Value>;
+pub uninterp spec fn symbol_name_of_slot(slot: int) -> Option<LyStr>;
+pub enum SymSetErr { SymbolDoesNotExist }
+pub enum SymInsErr { SymbolAlreadyExists }
+impl Vm {
+  /// R9: self.current_fun.module().get_symbol_by_slot(slot)
+  #[verifier::external_body]
+  pub fn verif_mod_get(&self, slot: usize) -> (r: Option<Value>)
+    ensures r == (if (slot as int) < self.modsyms@.len() { Some(self.modsyms@[slot as int]) } else { None::<Value> }) { None }
+  #[verifier::external_body]
+  pub fn verif_mod_set(&mut self, slot: usize, value: Value) -> (r: Result<(), SymSetErr>)
+    ensures (slot as int) < old(self).modsyms@.len() ==> r is Ok && final(self).modsyms@ == old(self).modsyms@.update(slot as int, value),
+            (slot as int) >= old(self).modsyms@.len() ==> r is Err && final(self).modsyms == old(self).modsyms,
+            final(self).modnames == old(self).modnames, final(self).fiber == old(self).fiber, final(self).ip == old(self).ip, final(self).raised == old(self).raised, final(self).builtin == old(self).builtin
+  { Ok(()) }
+  /// Module::insert_symbol: a new name gets the next dense slot
+  #[verifier::external_body]
+  pub fn verif_mod_insert(&mut self, name: LyStr, value: Value) -> (r: Result<usize, SymInsErr>)
+    ensures !old(self).modnames@.dom().contains(name) ==> r == Ok::<usize, SymInsErr>(old(self).modsyms@.len() as usize) && final(self).modsyms@ == old(self).modsyms@.push(value)
+              && final(self).modnames@ == old(self).modnames@.insert(name, old(self).modsyms@.len() as int),
+            old(self).modnames@.dom().contains(name) ==> r is Err && final(self).modsyms == old(self).modsyms,
+            final(self).fiber == old(self).fiber, final(self).ip == old(self).ip, final(self).raised == old(self).raised, final(self).builtin == old(self).builtin
+  { Ok(0) }
+  #[verifier::external_body] pub fn verif_mod_symbol_name(&self, slot: usize) -> (r: Option<LyStr>) ensures r == symbol_name_of_slot(slot as int) { None }
+  #[verifier::external_body] pub fn verif_global_get(&self, name: LyStr) -> (r: Option<Value>) ensures r == global_symbol(name) { None }
 }
 
 // R12: if_let_obj! / to_obj_kind! copied from laythe_core/src/macros.rs with the `$crate::` prefixes and `use` lines removed
